@@ -21,6 +21,7 @@ class Facts:
         self.impls_by_trait = {}
         for im in self.impls:
             self.impls_by_trait.setdefault(im['trait'], []).append(im)
+        _CURRENT.append(self)
 
     def fn(self, path):
         l = self.fns.get(path)
@@ -79,6 +80,8 @@ class Facts:
         return out
 
     def assoc_type(self, trait_path, self_ty, name):
+        if self_ty['k'] in ('param', 'alias'):
+            return None
         for im, b in self.find_impl(trait_path, self_ty):
             for it in im['items']:
                 if it['name'] == name and it['kind'] == 'type':
@@ -128,8 +131,28 @@ def subst_ty(t, m):
     if k == 'tuple':
         return dict(t, tys=[subst_ty(x, m) for x in t['tys']])
     if k == 'alias':
+        if t.get('akind') == 'projection':
+            nt = dict(t, args=[subst_ty(a, m) for a in t['args']])
+            nt['str'] = '<%s as %s>::%s' % (ty_str(nt['args'][0]), nt['trait'], nt['name'])
+            return normalize_alias(nt)
         return t
     return t
+
+
+_CURRENT = []
+
+
+def normalize_alias(t):
+    """resolve `<Concrete as LocalTrait>::Assoc` through the impl table"""
+    if not _CURRENT or t.get('akind') != 'projection':
+        return t
+    facts = _CURRENT[-1]
+    if t['trait'] not in facts.traits:
+        return t
+    r = facts.assoc_type(t['trait'], t['args'][0], t['name'])
+    if r is None:
+        return t
+    return r
 
 
 def ty_has_param(t):
